@@ -1,9 +1,225 @@
-import Ivg.Model.Decoder
-import Ivg.Model.Arc
-import Ivg.Model.MdIcons
+import Ivg.Lemmas.GenQ
 import Ivg.Gen.Tie
 import Ivg.Obligations
-/-! # Property C20 — theorems (work in progress: tie obligations only so far) -/
+/-!
+# C20 — SVG path data in the generator, transforms, and the Material-Design converter
+
+Property text (the part settled here): "… coordinates transformed by the configured scale-and-translate
+transform: absolute operands get the full transform, relative operands the scale only, arc radii the
+scale, arc flags unchanged and rotation converted from degrees to turns; concatenating transforms is
+matrix composition. The converter maps a path opacity to a blend of transparent with the first palette
+colour, reusing one register per distinct opacity, and circles to two half-turn arcs appended to the
+first path."
+
+Models: `Ivg/Model/Generator.lean` (`concat`, `mulAff3`, `normalizeArgs`, `emitVerb`; Go:
+`/repo/generate/generate.go`) and `Ivg/Model/MdIcons.lean` (`normalizeArgs`, `parsePath`; Go:
+`/repo/mdicons/parsepath.go`, `parsepathdata.go`).  Arithmetic facts are proved for the models
+instantiated at EXACT arithmetic (`ℚ`); structural facts for every number type.
+The parsing clauses of C20 (tokenising the path string, implicit verb repetition) are not in this file.
+-/
 namespace Ivg.Props.C20
+open Ivg Gen GenQ
+
+/-! ## concatenating transforms is matrix composition (exact arithmetic) -/
+
+/-- Clause "concatenating transforms is matrix composition": applying `Concat(l…)` to a point is applying
+    the transforms of `l` one after the other, first to last (`MulAff3` applies one matrix). -/
+theorem concat_is_composition (l : List (Aff3 ℚ)) (x y : ℚ) :
+    mulAff3 x y (concat l) = l.foldl (fun p a => mulAff3 p.1 p.2 a) (x, y) :=
+  GenQ.concat_is_composition l x y
+
+/-- … in particular `Concat(a, b)` is "first `a`, then `b`", `Concat()` is the identity map, and
+    concatenation of lists is composition of the concatenations. -/
+theorem concat_pair (a b : Aff3 ℚ) (x y : ℚ) :
+    mulAff3 x y (concat [a, b]) = mulAff3 (mulAff3 x y a).1 (mulAff3 x y a).2 b ∧
+    mulAff3 x y (concat []) = (x, y) ∧
+    (∀ l₁ l₂ : List (Aff3 ℚ), mulAff3 x y (concat (l₁ ++ l₂)) =
+      mulAff3 (mulAff3 x y (concat l₁)).1 (mulAff3 x y (concat l₁)).2 (concat l₂)) :=
+  ⟨GenQ.concat_pair a b x y, mulAff3_ident x y, fun l₁ l₂ => concat_append l₁ l₂ x y⟩
+
+/-- scale followed by translate is the scale-and-translate matrix the theorems below are about -/
+theorem concat_scale_translate (sx sy tx ty : ℚ) :
+    concat [scale2 sx sy, translate tx ty] = ⟨sx, 0, tx, 0, sy, ty⟩ :=
+  GenQ.concat_scale_translate sx sy tx ty
+
+/-! ## `normalize` of the generator (exact arithmetic) -/
+
+/-- Clause "absolute operands get the full transform, relative operands the scale only, arc radii the
+    scale, arc flags unchanged [and rotation passed on]": for a non-empty transform list whose
+    concatenation is the scale-and-translate matrix `[sx 0 tx; 0 sy ty]`, every operand pair `(x,y)` of a
+    2-, 4- or 6-operand verb and the end point of an arc become `xf … rel x y` =
+    `(sx·x+tx, sy·y+ty)` for an absolute verb, `(sx·x, sy·y)` for a relative (lower-case) one; the arc's
+    radii become `(sx·rx, sy·ry)` and its rotation and two flags are untouched. -/
+theorem normalize_abs_rel (ts : List (Aff3 ℚ)) (hne : ts ≠ []) (sx sy tx ty : ℚ)
+    (h : concat ts = ⟨sx, 0, tx, 0, sy, ty⟩) (verb : Char) :
+    let f := xf sx sy tx ty (isLower verb)
+    (∀ a0 a1, normalizeArgs [a0, a1] 2 verb ts = [(f a0 a1).1, (f a0 a1).2]) ∧
+    (∀ a0 a1 a2 a3, normalizeArgs [a0, a1, a2, a3] 4 verb ts =
+      [(f a0 a1).1, (f a0 a1).2, (f a2 a3).1, (f a2 a3).2]) ∧
+    (∀ a0 a1 a2 a3 a4 a5, normalizeArgs [a0, a1, a2, a3, a4, a5] 6 verb ts =
+      [(f a0 a1).1, (f a0 a1).2, (f a2 a3).1, (f a2 a3).2, (f a4 a5).1, (f a4 a5).2]) ∧
+    (∀ rx ry rot la sw x y, normalizeArgs [rx, ry, rot, la, sw, x, y] 7 verb ts =
+      [sx * rx, sy * ry, rot, la, sw, (f x y).1, (f x y).2]) :=
+  GenQ.normalize_abs_rel ts hne sx sy tx ty h verb
+example : [scale2 (2 : ℚ) 3, translate 5 7] ≠ [] ∧
+    concat [scale2 (2 : ℚ) 3, translate 5 7] = ⟨2, 0, 5, 0, 3, 7⟩ :=
+  ⟨by simp, GenQ.concat_scale_translate 2 3 5 7⟩
+/-- what `xf` is -/
+theorem xf_eq (sx sy tx ty x y : ℚ) :
+    xf sx sy tx ty false x y = (sx * x + tx, sy * y + ty) ∧ xf sx sy tx ty true x y = (sx * x, sy * y) :=
+  ⟨rfl, rfl⟩
+
+/-- … single-operand verbs: `H ↦ sx·x+tx`, `h ↦ sx·x`, `V ↦ sy·y+ty`, `v ↦ sy·y`. -/
+theorem normalize_hv (ts : List (Aff3 ℚ)) (hne : ts ≠ []) (sx sy tx ty : ℚ)
+    (h : concat ts = ⟨sx, 0, tx, 0, sy, ty⟩) (a : ℚ) :
+    normalizeArgs [a] 1 'H' ts = [sx * a + tx] ∧ normalizeArgs [a] 1 'h' ts = [sx * a] ∧
+    normalizeArgs [a] 1 'V' ts = [sy * a + ty] ∧ normalizeArgs [a] 1 'v' ts = [sy * a] :=
+  GenQ.normalize_hv ts hne sx sy tx ty h a
+
+/-- … and without a configured transform the operands are passed on unchanged (every number type). -/
+theorem normalize_no_transform {α : Type} [Arith α] (args : List α) (n : Nat) (verb : Char) :
+    normalizeArgs args n verb [] = args := GenQ.normalize_no_transform args n verb
+
+/-- Clause "rotation converted from degrees to turns": the arc call made for `A`/`a` carries `rot / 360`;
+    the flags are the `≠ 0` tests of their operands; radii and end point are as normalised. -/
+theorem emit_arc (adj : UInt8) (rx ry rot la sw x y : ℚ) :
+    emitVerb 'A' adj [rx, ry, rot, la, sw, x, y] =
+      .ok [.arc false rx ry (rot / 360) (!decide (la = 0)) (!decide (sw = 0)) x y] ∧
+    emitVerb 'a' adj [rx, ry, rot, la, sw, x, y] =
+      .ok [.arc true rx ry (rot / 360) (!decide (la = 0)) (!decide (sw = 0)) x y] :=
+  GenQ.emit_arc adj rx ry rot la sw x y
+
+/-! ## the converter's coordinate map (exact arithmetic) -/
+
+/-- The converter scales by `outSize/size` (`mdRel`); absolute coordinates are then moved by
+    `−outSize/2 − offset` (`mdAbs`, x operands with the x offset, y operands with the y offset). -/
+theorem md_normalize (size offX offY outSize : ℚ) (op : Char) :
+    let X := MdG.mdAbs size outSize offX
+    let Y := MdG.mdAbs size outSize offY
+    let R := MdG.mdRel size outSize
+    (∀ x y, Md.normalizeArgs [x, y] 2 op size offX offY outSize false = [X x, Y y]) ∧
+    (∀ x y, Md.normalizeArgs [x, y] 2 op size offX offY outSize true = [R x, R y]) ∧
+    (∀ x1 y1 x y, Md.normalizeArgs [x1, y1, x, y] 4 op size offX offY outSize false = [X x1, Y y1, X x, Y y]) ∧
+    (∀ x1 y1 x y, Md.normalizeArgs [x1, y1, x, y] 4 op size offX offY outSize true = [R x1, R y1, R x, R y]) ∧
+    (∀ x1 y1 x2 y2 x y, Md.normalizeArgs [x1, y1, x2, y2, x, y] 6 op size offX offY outSize false =
+      [X x1, Y y1, X x2, Y y2, X x, Y y]) ∧
+    (∀ x1 y1 x2 y2 x y, Md.normalizeArgs [x1, y1, x2, y2, x, y] 6 op size offX offY outSize true =
+      [R x1, R y1, R x2, R y2, R x, R y]) :=
+  MdG.md_normalize size offX offY outSize op
+
+theorem md_normalize_hv (size offX offY outSize a : ℚ) :
+    Md.normalizeArgs [a] 1 'H' size offX offY outSize false = [MdG.mdAbs size outSize offX a] ∧
+    Md.normalizeArgs [a] 1 'V' size offX offY outSize false = [MdG.mdAbs size outSize offY a] ∧
+    Md.normalizeArgs [a] 1 'h' size offX offY outSize true = [MdG.mdRel size outSize a] ∧
+    Md.normalizeArgs [a] 1 'v' size offX offY outSize true = [MdG.mdRel size outSize a] :=
+  MdG.md_normalize_hv size offX offY outSize a
+
+theorem md_map_eq (size outSize off a : ℚ) :
+    MdG.mdRel size outSize a = a * (outSize / size) ∧
+    MdG.mdAbs size outSize off a = a * (outSize / size) - outSize / 2 - off := ⟨rfl, rfl⟩
+
+/-! ## opacity registers and circles (every number type) -/
+section
+variable {α : Type} [Arith α]
+open Md MdG
+
+/-- Clause "maps a path opacity to a blend of transparent with the first palette colour, reusing one
+    register per distinct opacity" — the decision `ParsePath` takes (`MdG.opacityDecision`, the new
+    opacity map, the ADJ used, the calls made first):
+    opacity 1 ↦ ADJ 0, nothing written;  a known opacity ↦ its recorded ADJ, nothing written;  a new
+    opacity ↦ the next ADJ `len+1`, recorded, and ONE `setCReg adj false (blend t 0x7f 0x80)` with
+    `t = uint8(opacity·255)`, 0x7f = transparent, 0x80 = first custom palette colour. -/
+theorem opacity_decision (adjs : List (α × UInt8)) (opacity : α) :
+    (Arith.feq opacity (Arith.ofInt 1) = true → opacityDecision adjs opacity = (adjs, 0, [])) ∧
+    (Arith.feq opacity (Arith.ofInt 1) = false →
+      (∀ p, adjs.find? (fun p => Arith.feq p.1 opacity) = some p → opacityDecision adjs opacity = (adjs, p.2, [])) ∧
+      (adjs.find? (fun p => Arith.feq p.1 opacity) = none →
+        opacityDecision adjs opacity =
+          (adjs ++ [(opacity, UInt8.ofNat (adjs.length + 1))], UInt8.ofNat (adjs.length + 1),
+           [.setCReg (UInt8.ofNat (adjs.length + 1)) false
+             (Color.blendColor (Arith.toUInt8 (opacity * Arith.ofInt 255)) 0x7f 0x80)]))) :=
+  ⟨opacity_one adjs opacity, fun h => ⟨fun p hp => opacity_known adjs opacity h p hp, opacity_new adjs opacity h⟩⟩
+
+/-- … the map stays an allocation table (entry `k` holds ADJ `k+1`), so distinct recorded opacities have
+    distinct registers … -/
+theorem opacity_table (adjs : List (α × UInt8)) (opacity : α) (hwf : adjsWF adjs) :
+    adjsWF (opacityDecision adjs opacity).1 := opacity_wf adjs opacity hwf
+example : adjsWF ([] : List (ℚ × UInt8)) := fun k h => absurd h (Nat.not_lt_zero k)
+
+/-- … and the whole of a successful `ParsePath` is `pre ++ body ++ [closeEnd]` with `(adjs', adj, pre)`
+    the decision above, `adjs'` the map handed back, and `body` made of drawing calls and
+    `startPath adj` only: no other register write, no other ADJ, and exactly one `closeEnd`, at the end. -/
+theorem opacity_registers (adjs : List (α × UInt8)) (d : String) (opacity size offX offY outSize : α)
+    (circles : List (Circle α)) (cs : List (Call α))
+    (h : (parsePath adjs d opacity size offX offY outSize circles).2 = .ok cs) :
+    (parsePath adjs d opacity size offX offY outSize circles).1 = (opacityDecision adjs opacity).1 ∧
+    ∃ body, cs = (opacityDecision adjs opacity).2.2 ++ body ++ [.closeEnd] ∧
+      ∀ c ∈ body, bodyCall (opacityDecision adjs opacity).2.1 c = true :=
+  MdG.opacity_registers adjs d opacity size offX offY outSize circles cs h
+
+/-- Clause "circles to two half-turn arcs appended to the first path": after the path data's calls come,
+    per circle, a move to `(cx − r, cy)` (normalised; `startPath` only if the path had no data and this is
+    its first circle, otherwise close-and-move) and exactly the two relative arcs
+    `(r, r, 0, false, true, +2r, 0)`, `(r, r, 0, false, true, −2r, 0)` (`MdG.circleCalls`), then the one
+    `closeEnd`. -/
+theorem circles_two_arcs (adjs : List (α × UInt8)) (d : String) (opacity size offX offY outSize : α)
+    (circles : List (Circle α)) (cs : List (Call α))
+    (h : (parsePath adjs d opacity size offX offY outSize circles).2 = .ok cs) :
+    let dec := opacityDecision adjs opacity
+    ∃ pcs, (if d = "" then pcs = [] else parsePathData d dec.2.1 size offX offY outSize = .ok pcs) ∧
+      cs = dec.2.2 ++ pcs ++
+        (match circles with
+         | [] => []
+         | c :: rest => circleCalls size offX offY outSize dec.2.1 (decide (d = "")) c ++
+             rest.flatMap (circleCalls size offX offY outSize dec.2.1 false)) ++ [.closeEnd] :=
+  MdG.circles_two_arcs adjs d opacity size offX offY outSize circles cs h
+
+/-- what one circle contributes -/
+theorem circle_calls (size offX offY outSize : α) (adj : UInt8) (needStart : Bool) (c : Circle α) :
+    circleCalls size offX offY outSize adj needStart c =
+      (let cx := c.cx * outSize / size - (outSize / Arith.ofInt 2 + offX)
+       let cy := c.cy * outSize / size - (outSize / Arith.ofInt 2 + offY)
+       let r := c.r * outSize / size
+       [if needStart then Call.startPath adj (cx - r) cy else Call.d2 .Y (cx - r) cy,
+        .arc true r r (Arith.ofInt 0) false true (Arith.ofInt 2 * r) (Arith.ofInt 0),
+        .arc true r r (Arith.ofInt 0) false true (Arith.ofInt (-2) * r) (Arith.ofInt 0)]) := rfl
+end
+
+-- non-vacuity of `opacity_registers` / `circles_two_arcs`: a path without data and one circle, opacity 1/2
+example : (Md.parsePath (α := ℚ) [] "" (1 / 2) 24 0 0 48 [⟨12, 12, 6⟩]).2 =
+    .ok ([.setCReg 1 false (Color.blendColor (Arith.toUInt8 ((1 / 2 : ℚ) * Arith.ofInt 255)) 0x7f 0x80)] ++ [] ++
+      MdG.circleCalls 24 0 0 48 1 true ⟨12, 12, 6⟩ ++ [.closeEnd]) := by
+  rw [MdG.parsePath_eq]
+  have h : MdG.opacityDecision ([] : List (ℚ × UInt8)) (1 / 2) =
+      ([(1 / 2, 1)], 1, [.setCReg 1 false (Color.blendColor (Arith.toUInt8 ((1 / 2 : ℚ) * Arith.ofInt 255)) 0x7f 0x80)]) := by
+    rw [MdG.opacity_new] <;> simp [RatInst.feq_eq]
+  simp only [h, ↓reduceIte, MdG.circ_cons, MdG.circ_nil, List.append_nil]
+
+/-- at exact arithmetic the two arcs go from the circle's leftmost point to its rightmost and back -/
+theorem circle_endpoints (cx r : ℚ) :
+    (cx - r) + (Arith.ofInt 2 : ℚ) * r = cx + r ∧ (cx + r) + (Arith.ofInt (-2) : ℚ) * r = cx - r :=
+  MdG.circle_endpoints cx r
+
+/-!
+## Not proved in this file
+
+* The parsing clauses of C20 (verbs, implicit repetition, number tokens): other files.
+* Rounding: `concat`, `normalize` are proved at `ℚ` only; at float32 `Concat` of a single transform is
+  that transform, and of several is the rounded product (not associative).
+* `normalize_abs_rel` is stated for transforms whose concatenation has zero off-diagonal entries
+  (scale-and-translate), which is what the property text names; for a general matrix the generator's
+  "scale" for relative operands is the diagonal of the matrix, which is not the linear part.
+* `ParsePath` on a path-data error: the Go code has by then already made the `SetCReg` call; the model
+  returns only the error (`(adjs', .error e)`), so "no call on error" is neither claimed nor true.
+-/
+
 end Ivg.Props.C20
-#obligations C20 [Ivg.Gen.Tie.drawOps_tie, Ivg.Gen.Tie.magic_tie, Ivg.Gen.Tie.errorStrings_tie]
+
+#obligations C20 [
+  Ivg.Props.C20.concat_is_composition, Ivg.Props.C20.concat_pair, Ivg.Props.C20.concat_scale_translate,
+  Ivg.Props.C20.normalize_abs_rel, Ivg.Props.C20.xf_eq, Ivg.Props.C20.normalize_hv,
+  Ivg.Props.C20.normalize_no_transform, Ivg.Props.C20.emit_arc,
+  Ivg.Props.C20.md_normalize, Ivg.Props.C20.md_normalize_hv, Ivg.Props.C20.md_map_eq,
+  Ivg.Props.C20.opacity_decision, Ivg.Props.C20.opacity_table, Ivg.Props.C20.opacity_registers,
+  Ivg.Props.C20.circles_two_arcs, Ivg.Props.C20.circle_calls, Ivg.Props.C20.circle_endpoints,
+  Ivg.Gen.Tie.drawOps_tie, Ivg.Gen.Tie.magic_tie, Ivg.Gen.Tie.errorStrings_tie]
